@@ -83,3 +83,35 @@ func HC11Lifecycle() {
 	it.UnbindLocalStream(info)
 	it.UnbindRemoteStream(rinfo)
 }
+
+// HC11ReadThenClose: a reader goroutine is inside Read (possibly parked in the interceptor's
+// hand-off because no RTCP writer was ever bound, so no loop is receiving) when Close is called:
+// the Read must return, and no goroutine may be left behind.
+func HC11ReadThenClose() {
+	k := vr.Param("kind", 7)
+	it := member(k)
+	if vr.NondetBool() {
+		it.BindRTCPWriter(interceptor.RTCPWriterFunc(func(p []rtcp.Packet, _ interceptor.Attributes) (int, error) { return 0, nil }))
+		vr.Cover("writer bound")
+	}
+	rinfo := &interceptor.StreamInfo{SSRC: 0x2222, ClockRate: 90000, PayloadType: 96,
+		RTPHeaderExtensions: []interceptor.RTPHeaderExtension{{URI: twccURI, ID: 5}},
+		RTCPFeedback:        []interceptor.RTCPFeedback{{Type: "nack"}, {Type: "transport-cc"}, {Type: "ack", Parameter: "ccfb"}}}
+	rd := it.BindRemoteStream(rinfo, interceptor.RTPReaderFunc(func(buf []byte, at interceptor.Attributes) (int, interceptor.Attributes, error) {
+		pkt := [20]byte{0x90, 96, 0, 7, 0, 0, 0, 1, 0, 0, 0x22, 0x22, 0xBE, 0xDE, 0, 1, 0x51, 0, 9, 0}
+		copy(buf, pkt[:])
+		return 20, at, nil
+	}))
+	done := false
+	go func() {
+		buf := make([]byte, 64)
+		_, _, _ = rd.Read(buf, nil)
+		done = true
+	}()
+	vr.Yield() // the reader runs until it returns or parks
+	_ = it.Close()
+	vr.Yield()
+	vr.Cover("closed")
+	vr.Assert(done, "a Read that was in progress when Close was called returns")
+	vr.Assert(vr.LiveThreads() == 0, "no goroutine is left behind after Close")
+}
